@@ -458,6 +458,23 @@ def run(repo: Repo, chk: Check, thorough: bool = False) -> None:
                    repo.loc(h.mod, x))
     if n_w < 1:
         raise AnalysisError('R20.6: no write of self.parsers found in CompositeConfigParser (the constructor assigns it)')
+    # ... and the name it decides by is the `.name` of the stream the opener hands to configargparse: the opener has to return the file object itself (or a
+    # stream it gives a name) - an in-memory copy (StringIO) has none, and every pydoctor.ini / setup.cfg is offered to the TOML parser first again
+    reads_name = any(isinstance(x, ast.Constant) and x.value == 'name' for g in [cpar] + [h for h in repo.funcs.values() if h.cls is cpar.cls] for c in calls_in(g)
+                     if call_name(c) == 'getattr' for x in c.args[1:2]) or \
+        any(isinstance(x, ast.Attribute) and x.attr == 'name' for h in repo.funcs.values() if h.cls is cpar.cls for x in h.walk())
+    opener = repo.funcs.get(f'{OPT}.{enc_fn.id}') if isinstance(enc_fn, ast.Name) else None
+    if reads_name and opener is not None:
+        rets_o = [r for r in opener.walk() if isinstance(r, ast.Return) and r.value is not None]
+        named = {t.value.id for n in opener.walk() if isinstance(n, ast.Assign) for t in n.targets if isinstance(t, ast.Attribute) and t.attr == 'name' and isinstance(t.value, ast.Name)}
+        bad_r = [r for r in rets_o if not ((isinstance(r.value, ast.Call) and call_name(r.value) == 'open' and isinstance(r.value.func, ast.Name)) or
+                                           (isinstance(r.value, ast.Name) and (r.value.id in named or any(
+                                               isinstance(n, ast.Assign) and isinstance(n.value, ast.Call) and call_name(n.value) == 'open' and isinstance(n.value.func, ast.Name) and
+                                               any(isinstance(t, ast.Name) and t.id == r.value.id for t in n.targets) for n in opener.walk()))))]
+        chk.ob('R20.6', f'{opener.qn} :: the stream handed to the parsers carries the name of the file', bool(rets_o) and not bad_r,
+               'returns the file object open(...) gives' if rets_o and not bad_r else
+               f'`{norm(bad_r[0])[:60] if bad_r else "?"}` returns a stream without `.name`: CompositeConfigParser cannot tell pydoctor.ini / setup.cfg from a TOML file any more - '
+               "`project-version = 1.10` becomes '1.1', a bare `true` becomes 'True', `'C:\\\\docs'` keeps both backslashes", opener.loc)
     secs = om.assigns.get('CONFIG_SECTIONS')
     ok = isinstance(secs, ast.List) and [const_str(e) for e in secs.elts] == ['tool.pydoctor', 'tool:pydoctor', 'pydoctor'] and \
         isinstance(pcp, ast.Call) and all('CONFIG_SECTIONS' in norm(e) for e in pcp.args[0].elts)  # type: ignore[attr-defined]
